@@ -8,6 +8,7 @@ accepted}), (2) independent oracle on the real results (sympy.isprime, order of 
 (3) the prime fields chosen by SecInt/SecFxp (`_pfield`) incl. explicit moduli and the party-count assert.
 """
 import os
+import signal
 import sys
 import types
 
@@ -67,15 +68,34 @@ class _IsPrimeRecorder:
         return r
 
 
+CALL_TIMEOUT = 120.0   # seconds per call of the code under test
+
+
+class Hang(Exception):
+    pass
+
+
+def _on_alarm(_signum, _frame):
+    raise TimeoutError('call of the code under test did not terminate in time')
+
+
+def _timer(on):
+    signal.signal(signal.SIGALRM, _on_alarm)
+    signal.setitimer(signal.ITIMER_REAL, CALL_TIMEOUT if on else 0)
+
+
 def call_fpr(l, blum, n):
     rec = _IsPrimeRecorder()
     gmpy.is_prime = rec
     try:
         try:
+            _timer(True)
             r = finfields.find_prime_root(l, blum, n)
             out = ('ok', tuple(int(v) for v in r))
         except Exception as exc:
             out = ('err', type(exc).__name__)
+        finally:
+            _timer(False)
     finally:
         gmpy.is_prime = rec.orig
     return out, sorted(set(rec.trues))
@@ -135,10 +155,13 @@ def call_pfield(l, f, k, p, n, m, t):
     sectypes.runtime = _StubRuntime(k, m, t)
     try:
         try:
+            _timer(True)
             fld = sectypes._pfield(l, f, p, n)
             out = ('ok', int(fld.modulus))
         except Exception as exc:
             out = ('err', type(exc).__name__)
+        finally:
+            _timer(False)
     finally:
         sectypes.runtime = saved
     return out
@@ -193,6 +216,9 @@ def run(ctx):
                     ctx.violation(f'find_prime_root({l}, {blum}, {n}) -> {canon(out)}: {msg}',
                                   {'function': 'find_prime_root', 'args': [l, blum, n], 'observed': canon(out),
                                    'expected': msg})
+                if out == ('err', 'TimeoutError'):
+                    ctx.note('aborted: find_prime_root does not terminate')
+                    return
                 if l <= 2 and blum and n > 2:
                     notes_small += 1
                 b = 1 if blum else 0
@@ -232,6 +258,9 @@ def run(ctx):
                                 ctx.violation(f'_pfield(l={l}, f={f}, p={p}, n={n}) with k={k}, m={m}, t={t} -> {canon(out)}: {msg}',
                                               {'function': '_pfield', 'args': [l, f, k, p, n, m, t],
                                                'observed': canon(out), 'expected': msg})
+                            if out == ('err', 'TimeoutError'):
+                                ctx.note('aborted: _pfield does not terminate')
+                                return
                             lines.append(f'pfield {FUEL} {l} {f} {k} {"None" if p is None else p} {n} {m} {t}')
                             impl.append(canon(out))
                             meta.append(('pfield', l, f, k, p, n, m, t))
